@@ -1,5 +1,7 @@
 """Driver configuration and manifest text for C15 (see DESIGN.md 5.15)."""
 
+RULE_ADD = " Later additions: swapBroker mutation (a broker leaves and another arrives between two refreshes); part 'stalehandle' (deterministic: re-address a broker, refresh, report the old handle as failed, the new entry must stay)."
+
 CHECK = {'pkg': '.',
  'sim': True,
  'parts': [{'name': 'metadata', 'test': 'TestVF_C15', 'quick': {'shards': 8, 'checks': 200}, 'thorough': {'shards': 16, 'checks': 20000}},
